@@ -113,6 +113,10 @@ func (fc *FnCtx) unknownCall(name string, args []V, resTy types.Type, everything
 		nac := fc.fresh("ac", sInt)
 		fc.assume(sx(">=", nac, fc.cur.ac))
 		fc.cur.ac = nac
+		for _, k := range fc.havocked {
+			fc.cur.hac[k] = nac
+		}
+		fc.havocked = nil
 	}
 	return fc.freshWF(resTy, "res_"+shortName(name), fc.cur)
 }
@@ -135,6 +139,8 @@ func (fc *FnCtx) havocReachable(t types.Type, depth int) {
 			key := mk + "." + c.Suf
 			fc.heapGet(fc.cur, key, memSort(c.Sort))
 			fc.cur.heap[key] = fc.fresh("hv:"+key, memSort(c.Sort))
+			delete(fc.cur.hac, key)
+			fc.havocked = append(fc.havocked, key)
 			fc.noteWrite(key)
 		}
 		fc.havocReachable(u.Elem(), depth+1)
@@ -146,6 +152,7 @@ func (fc *FnCtx) havocReachable(t types.Type, depth int) {
 				key := sk + "." + c.Suf
 				fc.heapGet(fc.cur, key, fieldSort(c.Sort))
 				fc.cur.heap[key] = fc.fresh("hv:"+key, fieldSort(c.Sort))
+				fc.havocked = append(fc.havocked, key)
 				fc.noteWrite(key)
 			}
 		}
@@ -516,13 +523,13 @@ func (fc *FnCtx) applyContractX(c *Contract, name string, args []V, sig *types.S
 		fc.havocAll(fc.cur)
 		fc.uncontracted[name+" (no modifies clause)"] = true
 	} else {
-		for _, m := range c.Modifies {
-			fc.havocTarget(env, old, m, pos)
-		}
 		if !c.Pure {
 			nac := fc.fresh("ac", sInt)
 			fc.assume(sx(">=", nac, fc.cur.ac))
 			fc.cur.ac = nac
+		}
+		for _, m := range c.Modifies {
+			fc.havocTarget(env, old, m, pos)
 		}
 	}
 	// results
